@@ -33,7 +33,8 @@
      * whether folder / file path are reported as given or made absolute (populate_from_path
        resolves when the file / folder exists): both forms of the SAME directory are accepted;
      * hidden files (empty stem) and a trailing dot: pathlib's suffix rules, not stated anywhere;
-     * metadata of results that come out of an archive (root "dc"): member naming belongs to C10;
+     * metadata of results that come out of an archive read WITHOUT an archive path (root "dc"); with an archive
+       path the member rule below (MemberPath) applies;  which members are extracted is C10's business;
      * detected_encoding;  the numeric / date fields of the metadata objects;
      * a document property for which the metadata type of the format has no field
        (PdfMetadata has no title/author/...; HtmlMetadata no subject; EpubMetadata no keywords;
@@ -168,6 +169,24 @@ AsPath(p, m) ==
     IF m.fnk = "none" THEN NoPath
     ELSE [root |-> m.fdir.root, dirs |-> m.fdir.segs, stem |-> m.fn[1], exts |-> Tail(m.fn),
           fexists |-> p.fexists, dexists |-> p.dexists]
+
+(* results that come out of an archive.  archive_extractor._process_archive_entry hands every member to its extractor
+   with "a path that includes archive context": <archive path>!/<member name> (the repository's own test asserts
+   "test_archive.zip!/" in file_path; the property lists the "archive!/member" form).  So the member's metadata is
+   FromPath of that string: the archive's file name + "!" (archseg) becomes one more folder segment, the member's
+   folders follow, file name and extension are the member's.  A leading "/" of an absolute member name (tar -P)
+   changes nothing: the member stays below the archive.  Without an archive path the documentation is silent
+   (the code passes the bare member name): DON'T-CARE, the driver sets root "dc".
+   m = [k |-> "member", archseg, dirs, stem, exts] *)
+MemberPath(p, m) == [root |-> p.root, dirs |-> p.dirs \o <<m.archseg>> \o m.dirs, stem |-> m.stem, exts |-> m.exts,
+                     fexists |-> FALSE, dexists |-> FALSE]
+EffectivePath(p, m) == IF m.k = "member" /\ p.root \notin {"none", "dc"} THEN MemberPath(p, m) ELSE p
+Law_Member(p, m) == (p # NoPath /\ p.root # "dc") =>
+    LET q == MemberPath(p, m)  f == FromPath(q) IN
+    /\ Acceptable(q, f)
+    /\ f.fn = <<m.stem>> \o m.exts
+    /\ f.dir.segs = p.dirs \o <<m.archseg>> \o m.dirs /\ f.dir.root = p.root      \* never resolved: nothing exists there
+    /\ f.fdir = f.dir
 
 (* laws of FromPath, checked by TLC on every abstract path (IfaceGen) *)
 Law_NoneWhenNoPath == LET m == FromPath(NoPath) IN
